@@ -147,7 +147,7 @@ fn replace_ident(text: &str, name: &str, with: &str) -> String {
 pub struct C09;
 
 impl C09 {
-    fn gen_case(&self, s: &mut Src) -> C09Case {
+    pub fn gen_case(&self, s: &mut Src) -> C09Case {
         let cfg = GenCfg { max_defs: 3, ..GenCfg::default() };
         let n_roots = s.range(1, 2);
         let (env, roots) = gen_env_and_roots(s, &cfg, n_roots);
@@ -658,6 +658,164 @@ impl Check for C09 {
                 }
                 Err(CompileFail::Infra(e)) => return Outcome::infra(e),
                 Err(_) => {}
+            }
+        }
+        out
+    }
+}
+
+// ------------------------------------------------------------------------------------------------
+// C10 — compilation output is a deterministic function of the sources
+// ------------------------------------------------------------------------------------------------
+#[derive(Debug, Clone, Serialize, Deserialize)]
+pub struct C10Case {
+    pub project: Project,
+    pub kind: String,
+    /// alternative registration orders (eager parsing before extraction)
+    pub preloads: Vec<Vec<String>>,
+}
+
+pub struct C10;
+
+fn ns_stress(s: &mut Src) -> Vec<(String, String)> {
+    // a module with many exports, some of which cannot be converted, read through `typeof <namespace import>`
+    let n = s.range(4, 14);
+    let mut m = String::new();
+    for i in 0..n {
+        let line = match s.below(7) {
+            0 => format!("export const v{} = {};\n", i, s.pick(&["1", "\"a\"", "true", "{ a: 1 }", "[1, 2]"])),
+            1 => format!("export const v{} = {} as const;\n", i, s.pick(&["1", "\"a\"", "{ a: \"x\" }", "[1, \"b\"]"])),
+            2 => format!("export const bad{} = {};\n", i, s.pick(&["/re/", "Symbol()", "new Date()", "1 as unknown as symbol", "class {}"])),
+            3 => format!("export enum E{} {{ A = \"a\", B = {} }}\n", i, i),
+            4 => format!("export type T{} = {};\n", i, s.pick(&["string", "{ a: number }", "symbol"])),
+            5 => format!("export function f{}() {{ return 1; }}\n", i),
+            _ => format!("export const w{}: {} = null as any;\n", i, s.pick(&["string", "symbol", "() => void", "unique symbol", "{ a: string }"])),
+        };
+        m.push_str(&line);
+    }
+    if s.chance(1, 2) {
+        m.push_str("export * from \"./other\";\n");
+    }
+    let other = "export const o1 = 1;\nexport const o2 = /x/;\nexport type OT = string;\n".to_string();
+    let uses = match s.below(4) {
+        0 => "typeof ns".to_string(),
+        1 => "typeof ns.v0".to_string(),
+        2 => "{ a: typeof ns; b: ns.T1 }".to_string(),
+        _ => "keyof typeof ns".to_string(),
+    };
+    let entry = format!("import * as ns from \"./m\";\nparse.buildParsers<{{ P0: {}; P1: typeof ns }}>();\n", uses);
+    vec![("entry.ts".into(), entry), ("m.ts".into(), m), ("other.ts".into(), other)]
+}
+
+impl Check for C10 {
+    fn id(&self) -> &'static str {
+        "C10"
+    }
+    fn cases(&self, tier: Tier) -> u32 {
+        match tier {
+            Tier::Quick => 600,
+            Tier::Thorough => 20_000,
+        }
+    }
+    fn stream_len(&self) -> usize {
+        3500
+    }
+    fn threads(&self) -> usize {
+        12
+    }
+    fn rule(&self) -> String {
+        "case = a project (multi-file layouts of the C09 generator - successes; wild multi-file projects of the C04 grammar - mostly diagnostics; and a namespace-stress shape: `typeof <namespace import>` over a module with 4-14 exports, some unconvertible, optionally extended by export-star) compiled 6 times: twice in one process, then in 3 fresh OS processes (new hash seeds) of which two parse the files eagerly in shuffled registration orders, and once more lazily. Oracle: byte equality of emit_code() and of the serialized diagnostics across all runs. Non-trivial = >=2 files, or >=2 diagnostics, or >=8 hoisted values. Distinct = hash(project).".into()
+    }
+    fn assumptions(&self) -> Vec<String> {
+        vec!["hash seeds are sampled (4 processes per project): an order dependence that needs a rarer permutation can be missed; the generator compensates by making iterated symbol tables large".into()]
+    }
+    fn health(&self) -> Vec<(&'static str, f64)> {
+        vec![("compared", 0.8)]
+    }
+    fn generate(&self, s: &mut Src, _tier: Tier) -> Value {
+        let (sf, nf) = formats_json();
+        let (files, kind): (Vec<(String, String)>, &str) = match s.below(4) {
+            0 | 1 => (C09.gen_case(s).files, "layout"),
+            2 => (ns_stress(s), "namespace_stress"),
+            _ => {
+                let c = crate::c04::C04;
+                let v = c.generate(s, Tier::Quick);
+                let cc: crate::c04::C04Case = serde_json::from_value(v).unwrap();
+                (cc.project.files, "wild")
+            }
+        };
+        let names: Vec<String> = files.iter().map(|(n, _)| n.clone()).collect();
+        let mut preloads = vec![];
+        for _ in 0..2 {
+            let mut order = names.clone();
+            // Fisher-Yates with the stream
+            for i in (1..order.len()).rev() {
+                let j = s.below(i + 1);
+                order.swap(i, j);
+            }
+            preloads.push(order);
+        }
+        let project = Project { files, entry: "entry.ts".into(), string_formats: sf, number_formats: nf };
+        serde_json::to_value(C10Case { project, kind: kind.into(), preloads }).unwrap()
+    }
+    fn exec(&self, case: &Value, ctx: &mut Ctx) -> Outcome {
+        let case: C10Case = match serde_json::from_value(case.clone()) {
+            Ok(c) => c,
+            Err(e) => return Outcome::infra(format!("bad case: {}", e)),
+        };
+        let mut out = Outcome::default();
+        out.label(format!("kind:{}", case.kind));
+        if crate::c04::has_unguarded_alias_cycle(&case.project) {
+            out.label("excluded_alias_cycle");
+            return out;
+        }
+        let t = if ctx.shrinking { 3 } else { 20 };
+        let mut runs: Vec<(String, crate::compile::CompileOut)> = vec![];
+        let plan: Vec<(&str, Option<&[String]>, u64, bool)> = vec![
+            ("same process, twice", None, 2, false),
+            ("fresh process, eager order 1", Some(&case.preloads[0]), 1, true),
+            ("fresh process, eager order 2", Some(&case.preloads[1]), 1, true),
+            ("fresh process, lazy", None, 1, true),
+        ];
+        for (label, preload, repeat, fresh) in plan {
+            if fresh {
+                ctx.compiler.restart();
+            }
+            match ctx.compiler.compile_many(&case.project, preload, repeat, t) {
+                Ok(outs) => {
+                    for o in outs {
+                        runs.push((label.to_string(), o));
+                    }
+                }
+                Err(CompileFail::Infra(e)) => return Outcome::infra(e),
+                Err(_) => {
+                    // crashes and hangs are C04's subject
+                    out.label("crash_or_hang_skipped");
+                    return out;
+                }
+            }
+        }
+        if runs.iter().any(|(_, o)| o.panic.is_some()) {
+            out.label("panic_skipped");
+            return out;
+        }
+        out.evals = runs.len() as u64;
+        out.label("compared");
+        let first = &runs[0].1;
+        let hoists = first.code.as_ref().map(|c| c.matches("direct_hoist_").count()).unwrap_or(0);
+        if case.project.files.len() >= 2 || first.diags.len() >= 2 || hoists >= 16 {
+            out.nontrivial = Some(fp(&serde_json::to_string(&case.project).unwrap()));
+            out.sample = Some(json!({"kind": case.kind, "files": case.project.files, "diagnostics": first.diags.iter().map(|d| d.message.clone()).collect::<Vec<_>>(), "emitted": first.code.is_some()}));
+        }
+        for (label, o) in &runs[1..] {
+            if o.code != first.code {
+                out.mismatch(ctx, "emitted_code_differs_between_runs", format!("emit_code() differs between '{}' and '{}'", runs[0].0, label), json!({"project": case.project, "run_a": first.code, "run_b": o.code, "label_b": label}));
+                break;
+            }
+            if o.wasm_diag != first.wasm_diag {
+                let sig = if case.project.files.iter().any(|(_, t)| t.contains("import * as")) { "diagnostics_differ_between_runs:namespace_import" } else { "diagnostics_differ_between_runs" };
+                out.mismatch(ctx, sig, format!("diagnostics differ between '{}' and '{}'", runs[0].0, label), json!({"project": case.project, "run_a": first.wasm_diag, "run_b": o.wasm_diag, "label_b": label}));
+                break;
             }
         }
         out
